@@ -2,11 +2,11 @@
 from __future__ import annotations
 from fractions import Fraction
 import numpy as np
-import impl, gen, oracle
+import scale, impl, gen, oracle
 from impl import quiet, UnmatchedInstancePair, MaximizeMergeMatching
 from common import score_matches
 
-RULE = ("half of the cases through long-lived matcher objects reused across different inputs with the same label values; references with 15-40 one-voxel fragments carrying sparse labels; references covered by 2-5 prediction fragments (column chunks of a box, some spilling far outside, some dropped, "
+RULE = ("the matched pair returned by match_instances is checked against the label map (voxels carrying a matched reference's label = union of its merged fragments); ids beyond 2^25 with relabelling chains; fragment scenes embedded in canvases of more than 2^21 voxels (oracle only); half of the cases through long-lived matcher objects reused across different inputs with the same label values; references with 15-40 one-voxel fragments carrying sparse labels; references covered by 2-5 prediction fragments (column chunks of a box, some spilling far outside, some dropped, "
         "fragments shared between two references) plus object-based random maps x metric {IOU,DSC,ASSD} x thresholds; "
         "non-trivial = a reference with >= 2 candidate fragments of which at least one is rejected or merged")
 
@@ -105,11 +105,40 @@ def check_merge(pred, ref, metric, thr, order):
 _SHARED = {}
 
 
-def one_case(ctx, pred, ref, metric, thr, src, shared=False):
+def reported_pair_check(m, pred, ref, metric, order):
+    """the observable of the property is match_instances(): in the matched pair it returns, the voxels carrying a
+    matched reference's label must be exactly the union of the fragments the label map assigns to it (so that
+    the score a reader recomputes from the returned arrays is the score the merge decisions were based on)"""
+    try:
+        with quiet():
+            mp = m.match_instances(UnmatchedInstancePair(pred.copy(), ref.copy()))
+    except Exception as e:
+        return f"match_instances raised {type(e).__name__}"
+    out_p, out_r = np.asarray(mp.prediction_arr), np.asarray(mp.reference_arr)
+    if out_p.shape != pred.shape or not np.array_equal(out_r.astype(np.int64), ref.astype(np.int64)):
+        return "match_instances changed the reference map"
+    by_ref = {}
+    for p_, r_ in order:
+        by_ref.setdefault(r_, []).append(p_)
+    for r_, ps in by_ref.items():
+        want = np.isin(pred, ps)
+        got = out_p == r_
+        if not np.array_equal(want, got):
+            extra = sorted(set(np.unique(pred[got & ~want]).tolist()) - {0})
+            missing = sorted(set(np.unique(pred[want & ~got]).tolist()) - {0})
+            return (f"in the matched pair returned by match_instances, reference {r_} is reported with prediction fragments "
+                    f"{sorted(set(ps) - set(missing)) + extra} (extra {extra}, missing {missing}) instead of the merged fragments {ps}")
+    return None
+
+
+def one_case(ctx, pred, ref, metric, thr, src, shared=False, big=None):
     if not pred.any() or not ref.any():
         return
-    inp = {"shape": list(pred.shape), "pred": gen.arr_json(pred), "ref": gen.arr_json(ref), "metric": metric,
-           "thr": list(thr), "src": src, "dtype": str(pred.dtype), "shared_matcher": shared}
+    if big is None:
+        inp = {"shape": list(pred.shape), "pred": gen.arr_json(pred), "ref": gen.arr_json(ref), "metric": metric,
+               "thr": list(thr), "src": src, "dtype": str(pred.dtype), "shared_matcher": shared}
+    else:
+        inp = {"recipe": big, "metric": metric, "thr": list(thr), "src": src, "dtype": str(pred.dtype), "shared_matcher": shared}
     key = (metric, tuple(thr))
     if shared:
         m = _SHARED.setdefault(key, MaximizeMergeMatching(matching_metric=impl.METRICS[metric], matching_threshold=thr[0] / thr[1]))
@@ -133,6 +162,12 @@ def one_case(ctx, pred, ref, metric, thr, src, shared=False):
         ctx.count("float_fragile_skipped")
     if fails and not fragile:
         ctx.violation("C14 violated: " + fails[0], inp, impl=order, key={"kind": "bad-merge"})
+    elif not fragile:
+        f2 = reported_pair_check(m, pred, ref, metric, order)
+        if f2:
+            ctx.violation("C14 violated: " + f2, inp, impl=order, key={"kind": "bad-merge-reported"})
+    if big:
+        return
     mod = ctx.driver().ask({"op": "match", "shape": list(pred.shape), "pred": inp["pred"], "ref": inp["ref"],
                             "matcher": {"kind": "merge", "metric": metric, "thr": {"q": list(thr)}}})
     if fragile:
@@ -198,9 +233,54 @@ def many_fragments(rng):
     return pred, ref
 
 
+def big_id_chain(rng):
+    """ids around 4*10^7 (beyond 2^25): reference b's id equals the id of a fragment that is matched to reference a,
+    and b's own fragment is assigned later (lower score), so a relabelling that renames entries one after another
+    would rename a's fragment twice"""
+    base = rng.choice([40_000_000, 33_554_433, 50_000_000])
+    a, b = base + 2, base + 5
+    ref = np.zeros((1, 60), np.uint32)
+    pred = np.zeros((1, 60), np.uint32)
+    ref[0, 2:22] = a
+    ref[0, 30:50] = b
+    pred[0, 2:16] = b                 # fragment carrying b's id, matched to a (IoU 0.7)
+    pred[0, 16:22] = base + 9         # second fragment of a
+    w = rng.choice([11, 12, 13])
+    pred[0, 30:30 + w] = a if rng.random() < 0.5 else base + 11      # b's fragment (IoU ~0.6), may carry a's id
+    pred[0, 30 + w:50] = base + 12
+    return pred, ref
+
+
+def scale_recipes(rng):
+    """a fragment scene embedded in a canvas of more than 2^21 voxels: fragments that reach far (> 2 voxels) beyond
+    the bounding box of their reference and whose true score is below the threshold"""
+    out = []
+    for canvas in ([1500, 1500], [1460, 1450]):
+        ref = np.zeros((30, 40), np.uint8)
+        pred = np.zeros((30, 40), np.uint8)
+        ref[5:15, 5:15] = 1                       # 100 voxels
+        pred[5:15, 5:11] = 1                      # 60 inside ...
+        pred[5:15, 15:15 + rng.choice([12, 18])] = 1   # ... and 120-180 outside to the right: IoU 60/(100+120) < 1/2
+        pred[5:15, 11:15] = 2                     # 40 inside, alone 0.4
+        ref[20:26, 20:30] = 2
+        pred[20:26, 20:29] = 3
+        out.append({"kind": "embed", "small_pred": pred.tolist(), "small_ref": ref.tolist(), "canvas": canvas,
+                    "offset": [rng.randint(0, 1000), rng.randint(0, 1000)], "dtype": "uint8"})
+    return out
+
+
 def run(ctx):
     corpus(ctx)
     rng = ctx.rng
+    for i in range(ctx.scale(6, 30)):
+        p, r = big_id_chain(rng)
+        ctx.count("ids_beyond_2^25_with_chain")
+        one_case(ctx, p, r, "IOU", rng.choice([(1, 2), (1, 4)]), f"bigid{i}")
+    for k, rec in enumerate(scale_recipes(rng)):
+        P, R = scale.build(rec)
+        ctx.count("scale_oracle_only")
+        for metric, thr in (("IOU", (1, 2)), ("DSC", (3, 5))):
+            one_case(ctx, P, R, metric, thr, f"scale{k}", big=rec)
     for i in range(ctx.scale(16, 80)):
         p, r = many_fragments(rng)
         ctx.count("many_sparse_fragments")
@@ -221,6 +301,10 @@ def search(ctx):
 
 def replay(ctx, rec):
     i = rec["input"]
+    if "recipe" in i:
+        P, R = scale.build(i["recipe"])
+        one_case(ctx, P, R, i["metric"], tuple(i["thr"]), "replay", big=i["recipe"])
+        return
     dt = np.dtype(i.get("dtype", "uint8"))
     one_case(ctx, np.array(i["pred"], dtype=dt).reshape(i["shape"]), np.array(i["ref"], dtype=dt).reshape(i["shape"]),
              i["metric"], tuple(i["thr"]), "replay")
